@@ -2,6 +2,9 @@
 """Regenerates the seeded-changes table of DESIGN.md section 11.6 from seeded/*/meta.json."""
 import json, glob, os, re
 NOTES = {
+ 'C01-r7-score-memo-key-overflow': 'Strengthened: C01 first missed it (it needs a query on a partially decoded object); the score harnesses now decode every base vector once more with a seeded query asked of the receiver at every token boundary (decodeOne hook) and once through nil receivers.',
+ 'C02-r7-nil-receiver-rc-default': 'Strengthened: first missed; the score harnesses now also decode through typed nil receivers with the optional metrics omitted.',
+ 'C09-r7-score-shallow-copy-writes-scope': 'Strengthened: the fields are read again after the queries (f2); as worded C09 speaks of the fields Decode produced, the mutation by Score() is C15 matter and was caught there from the start.',
  'C15-r6-v2-geterror-cache': 'Strengthened: every history is run again with seeded queries (and report constructions) injected before each state-changing operation, also on the receiver before its first Decode; decode outcomes, snapshots and the closing battery must equal those of the plain run (InjectVerdict).',
  'C16-r6-shared-base-template': 'Strengthened: the stress mix exports templates that define a nested template of the same name with different bodies.',
  'C12-r6-decode-checks-base-only': 'Strengthened: an object returned without an error must be valid (also by a Decode into a used receiver); MC_Objects got inputs that leave an invalid optional metric behind and inputs that do not overwrite it.',
